@@ -397,3 +397,277 @@ def mask_snapshot_args(text: str) -> str:
             last = e
         out += b[last:]
         return out.decode("utf-8")
+
+
+# ---------------------------------------------------------------- D-plugin: the real pytest hooks, in process
+
+
+class NullConsole:
+    is_terminal = False
+    printed: List[str] = []
+
+    def __init__(self, *a, **k):
+        pass
+
+    def print(self, *a, **k):
+        with NoTracing():
+            NullConsole.printed.append(" ".join(str(x) for x in a))
+
+    def rule(self, *a, **k):
+        with NoTracing():
+            NullConsole.printed.append("RULE " + " ".join(str(x) for x in a))
+
+
+class _Capture:
+    def suspend_global_capture(self, in_=False):
+        pass
+
+    def resume_global_capture(self):
+        pass
+
+
+class _PM:
+    def getplugin(self, name):
+        return _Capture()
+
+
+class PluginEnv:
+    """what the stubs of the environment answer on this path"""
+
+    answers: List[bool] = []
+    asked: List[str] = []
+    written: Dict[str, str] = {}
+    write_log: List[str] = []
+
+
+_plugin_installed = False
+
+
+def install_plugin_shims():
+    global _plugin_installed
+    if _plugin_installed:
+        return
+    _plugin_installed = True
+    install_shims()
+    import inline_snapshot.pytest_plugin as P
+
+    P.Console = NullConsole
+    P.Panel = lambda *a, **k: None
+    P.Syntax = lambda *a, **k: None
+    P.pydantic_fix = lambda: None
+    P.fix_pytest_diff = lambda: None
+
+    class _Confirm:
+        @staticmethod
+        def ask(question, default=False):
+            with NoTracing():
+                PluginEnv.asked.append(str(question))
+            if PluginEnv.answers:
+                return PluginEnv.answers.pop(0)
+            return default
+
+    P.Confirm = _Confirm
+
+    class _FakeFile:
+        def __init__(self, name):
+            self.name = str(name)
+            self.data = b""
+
+        def write(self, b):
+            self.data += b
+
+        def __enter__(self):
+            return self
+
+        def __exit__(self, *a):
+            PluginEnv.written[self.name] = self.data.decode("utf-8")
+            PluginEnv.write_log.append(self.name)
+            return False
+
+    def fake_open(name, mode="r", *a, **k):
+        if mode == "bw":
+            return _FakeFile(name)
+        return builtins.open(name, mode, *a, **k)
+
+    RC.open = fake_open
+
+
+class PluginResult:
+    def __init__(self):
+        self.usage_error = None
+        self.active = None
+        self.update_flags = set()
+        self.outcomes = {}  # (file, test) -> "passed" | "failed" | "error"
+        self.exceptions = {}
+        self.written = {}  # file name -> new text
+        self.finish_error = None
+        self.printed = []
+        self.ns = {}
+        self.paths = {}
+        self.texts = {}
+        self.root = None
+        self.pending = {}
+
+
+def project_dir(files: Dict[str, str], extra: Optional[Dict[str, str]] = None) -> pathlib.Path:
+    with NoTracing():
+        h = hashlib.sha1(repr(sorted((k, str(v)) for k, v in {**files, **(extra or {})}.items())).encode("utf-8", "surrogatepass")).hexdigest()[:14]
+        d = pathlib.Path(scratch_dir()) / "proj" / h
+        if not d.exists():
+            d.mkdir(parents=True)
+            for name, text in {**files, **(extra or {})}.items():
+                p = d / name
+                p.parent.mkdir(parents=True, exist_ok=True)
+                p.write_bytes(str(text).encode("utf-8"))
+        return d
+
+
+def make_config(root, cli, nproc=None):
+    c = types.SimpleNamespace()
+    c.rootpath = root
+    c.option = types.SimpleNamespace(inline_snapshot=cli)
+    if nproc != "absent":
+        c.option.numprocesses = nproc
+    c.pluginmanager = _PM()
+    return c
+
+
+def plugin_session(files, *, cli=None, env_flags=None, tty=False, ci_var=None, pycharm=False, nproc=None, answers=(),
+                   xfail=(), pyproject=None, extra_globals=None, body_hook=None) -> PluginResult:
+    """D-plugin: real pytest_configure -> (real autouse fixture around every test_* function) -> real
+    pytest_sessionfinish, with stub config/request/session objects.  File writes are captured in memory."""
+    import pytest
+
+    import inline_snapshot.pytest_plugin as P
+    from inline_snapshot._global_state import state
+
+    install_plugin_shims()
+    res = PluginResult()
+    if isinstance(files, str):
+        files = {"test_a.py": files}
+    files = {k: prepare(v) for k, v in files.items()}
+    extra = {"pyproject.toml": pyproject} if pyproject is not None else None
+    root = project_dir(files, extra)
+    res.root = root
+    res.texts = dict(files)
+    PluginEnv.answers = list(answers)
+    PluginEnv.asked = []
+    PluginEnv.written = {}
+    PluginEnv.write_log = []
+    NullConsole.is_terminal = tty
+    NullConsole.printed = []
+    saved_env = dict(os.environ)
+    with NoTracing():
+        for v in ("CI", "bamboo.buildKey", "BUILD_ID", "BUILD_NUMBER", "BUILDKITE", "CIRCLECI", "CONTINUOUS_INTEGRATION", "GITHUB_ACTIONS",
+                  "HUDSON_URL", "JENKINS_URL", "TEAMCITY_VERSION", "TRAVIS", "PYCHARM_HOSTED", "INLINE_SNAPSHOT_DEFAULT_FLAGS"):
+            os.environ.pop(v, None)
+        if ci_var:
+            os.environ[ci_var] = "1"
+        if pycharm:
+            os.environ["PYCHARM_HOSTED"] = "1"
+        if env_flags is not None:
+            os.environ["INLINE_SNAPSHOT_DEFAULT_FLAGS"] = env_flags
+    cfg = make_config(root, cli, nproc)
+    cwd = os.getcwd()
+    os.chdir(root)
+    configured = False
+    try:
+        try:
+            P.pytest_configure(cfg)
+            configured = True
+        except pytest.UsageError as e:
+            res.usage_error = str(e)
+            from inline_snapshot._global_state import leave_snapshot_context
+
+            leave_snapshot_context()
+            return res
+        st = state()
+        res.active = st.active
+        res.update_flags = set(st.update_flags.to_set())
+        try:
+            for fname, text in files.items():
+                if not fname.endswith(".py"):
+                    continue
+                path = root / fname
+                res.paths[fname] = path
+                g = {"__name__": fname[:-3].replace("/", "."), "__file__": str(path)}
+                g.update(W.ns)
+                if extra_globals:
+                    g.update(extra_globals)
+                try:
+                    exec(compile(text, str(path), "exec"), g)
+                except Exception as e:
+                    res.outcomes[(fname, "<module>")] = "error"
+                    res.exceptions[(fname, "<module>")] = e
+                    continue
+                res.ns[fname] = g
+                for k, v in list(g.items()):
+                    if not _is_test(k, v):
+                        continue
+                    marks = {"xfail": types.SimpleNamespace(args=(), kwargs={})} if k in xfail else {}
+                    req = types.SimpleNamespace(keywords=marks)
+                    fx = P.snapshot_check._get_wrapped_function()(req)
+                    next(fx)
+                    outcome = "passed"
+                    try:
+                        v()
+                    except Exception as e:
+                        outcome = "failed"
+                        res.exceptions[(fname, k)] = e
+                    try:
+                        next(fx)
+                    except StopIteration:
+                        pass
+                    except BaseException as e:
+                        if type(e).__name__ == "Failed":
+                            if outcome == "passed":
+                                outcome = "error"
+                            res.exceptions.setdefault((fname, k), e)
+                        else:
+                            raise
+                    res.outcomes[(fname, k)] = outcome
+            if body_hook is not None:
+                body_hook(res)
+        finally:
+            sess = types.SimpleNamespace(config=cfg)
+            try:
+                P.pytest_sessionfinish(sess, 0)
+            except Exception as e:
+                res.finish_error = e
+    finally:
+        os.chdir(cwd)
+        with NoTracing():
+            os.environ.clear()
+            os.environ.update(saved_env)
+    for name, path in res.paths.items():
+        if str(path) in PluginEnv.written:
+            res.written[name] = PluginEnv.written[str(path)]
+    res.printed = list(NullConsole.printed)
+    return res
+
+
+def text_after(res: PluginResult, name="test_a.py") -> str:
+    return res.written.get(name, res.texts[name])
+
+
+def passes_when_disabled(text: str, extra_globals=None, tests=None):
+    """Run the (rewritten) module with inline-snapshot *inactive* (snapshot(v) returns v, snapshot() raises):
+    True iff every test passes.  Names introduced by the rendering stub are bound to their symbolic values, so
+    'the rewritten test passes' is decided by the solver for all values on the path."""
+    from inline_snapshot._global_state import state
+
+    assert not state().active
+    path = materialize(text, "d")
+    g = {"__name__": "verif_disabled", "__file__": str(path)}
+    g.update(W.ns)
+    g.update(W.ph)
+    if extra_globals:
+        g.update(extra_globals)
+    exec(compile(text, str(path), "exec"), g)
+    for k, v in list(g.items()):
+        if _is_test(k, v) and (tests is None or k in tests):
+            try:
+                v()
+            except Exception:
+                return False
+    return True
